@@ -14,6 +14,7 @@
 package versionupgrade
 
 import (
+	"encoding/json"
 	"fmt"
 	"math/big"
 	"math/rand"
@@ -27,12 +28,75 @@ import (
 
 func init() { drive.Register("versionupgrade", run) }
 
-// PS is a parameter set (the same four numbers for every version of the table).
-type PS struct {
+// P4 = the four upgrade parameters of one version.
+type P4 struct {
 	Vr   uint64 `json:"vr"`
 	Th   uint64 `json:"th"`
 	Minw uint64 `json:"minw"`
 	Maxw uint64 `json:"maxw"`
+}
+
+// PS is a parameter set: either the same four numbers for every version ({"vr",...}) or one P4 per version of the
+// fixture ({"p1":{...},"p2":{...},"p9":{...}}).  It is echoed into the trace exactly as it came in (Raw).
+type PS struct {
+	P4
+	P1  *P4 `json:"p1"`
+	P2  *P4 `json:"p2"`
+	P9  *P4 `json:"p9"`
+	Raw json.RawMessage `json:"-"`
+}
+
+// UnmarshalJSON keeps the raw form for the trace.
+func (p *PS) UnmarshalJSON(b []byte) error {
+	type plain PS
+	var q plain
+	if err := json.Unmarshal(b, &q); err != nil {
+		return err
+	}
+	*p = PS(q)
+	p.Raw = append(json.RawMessage{}, b...)
+	return nil
+}
+
+// MarshalJSON echoes the raw form.
+func (p PS) MarshalJSON() ([]byte, error) {
+	if len(p.Raw) > 0 {
+		return p.Raw, nil
+	}
+	return json.Marshal(p.P4)
+}
+
+// of returns the parameters of version v.
+func (p PS) of(v params.YouVersion) P4 {
+	switch {
+	case v == 1 && p.P1 != nil:
+		return *p.P1
+	case v == 2 && p.P2 != nil:
+		return *p.P2
+	case v == 9 && p.P9 != nil:
+		return *p.P9
+	}
+	return p.P4
+}
+
+func (p PS) maxw() uint64 {
+	m := uint64(0)
+	for _, v := range versions {
+		if q := p.of(v); q.Maxw > m {
+			m = q.Maxw
+		}
+	}
+	return m
+}
+
+func (p PS) span() uint64 {
+	m := uint64(0)
+	for _, v := range versions {
+		if q := p.of(v); q.Vr+q.Maxw > m {
+			m = q.Vr + q.Maxw
+		}
+	}
+	return m
 }
 
 // Beh is one behaviour.
@@ -61,10 +125,11 @@ func table(p PS, known []params.YouVersion, appr bool, wait uint64) params.Versi
 	m := params.VersionsMap{}
 	for _, v := range known {
 		yp := params.YouParams{Version: v}
-		yp.UpgradeVoteRounds = p.Vr
-		yp.UpgradeThreshold = p.Th
-		yp.MinUpgradeWaitRounds = p.Minw
-		yp.MaxUpgradeWaitRounds = p.Maxw
+		q := p.of(v)
+		yp.UpgradeVoteRounds = q.Vr
+		yp.UpgradeThreshold = q.Th
+		yp.MinUpgradeWaitRounds = q.Minw
+		yp.MaxUpgradeWaitRounds = q.Maxw
 		yp.UpgradeWaitRounds = wait
 		if appr {
 			yp.ApprovedUpgradeVersion = approved(v)
@@ -221,7 +286,7 @@ func explore(env *drive.Env, beh *Beh, fullFlag int) {
 	nb := 0
 	for _, K := range subsetsWith(seen) {
 		for appr := 0; appr <= 1; appr++ {
-			for wait := uint64(0); wait <= p.Maxw+1; wait++ {
+			for wait := uint64(0); wait <= p.maxw()+1; wait++ {
 				params.Versions = table(p, K, appr == 1, wait)
 				curr := &types.Header{Number: new(big.Int).SetUint64(prev.n + 1)}
 				o := &outcome{K: K, Appr: appr, Wait: wait, Out: []uint64{}, Own: "-", Full: "-", N: 1}
@@ -255,7 +320,7 @@ func walk(env *drive.Env, beh *Beh) {
 	params.Versions = table(p, versions, true, 0)
 	rng := rand.New(rand.NewSource(env.Seed*7919 + beh.Wseed))
 	prev := hdr{0, 1, 0, 0, 0, 0}
-	span := p.Vr + p.Maxw + 2
+	span := p.span() + 2
 	for i := 0; i < beh.Walk; i++ {
 		n := prev.n + 1
 		rounds := []uint64{0}
